@@ -11,6 +11,7 @@ import (
 
 func init() {
 	vhRegister("VH_C04_Exit", func(p []int) { VH_C04_Exit(p[0], p[1]) })
+	vhRegister("VH_C04_ExitIns", func(p []int) { VH_C04_ExitIns(p[0], p[1], p[2]) })
 	vhRegister("VH_C03_Resume", func(p []int) { VH_C03_Resume(p[0]) })
 	vhRegister("VH_C17_Gate", func(p []int) { VH_C17_Gate(p[0]) })
 	vhRegister("VH_C17_Real", func(p []int) { VH_C17_Real(p[0], p[1]) })
@@ -67,8 +68,18 @@ func vhBoundary(h *vHist, n int, accepted int) Position {
 }
 
 // VH_C04_Exit: U units and one fault of the given kind at an arbitrary point.
+var vExitIns int
+
+// VH_C04_ExitIns: as VH_C04_Exit, with `ins` unknown statements (SAVEPOINT x) inserted at arbitrary
+// positions of the history, also inside a transaction.
+func VH_C04_ExitIns(U, fault, ins int) {
+	vExitIns, vIgnFixed = ins, true // the inserted event is an unknown statement (SAVEPOINT)
+	VH_C04_Exit(U, fault)
+	vExitIns, vIgnFixed = 0, false
+}
+
 func VH_C04_Exit(U, fault int) {
-	h := vhGenHistory(U, 0, false)
+	h := vhGenHistory(U, vExitIns, false)
 	m := &vMapper{ncols: map[string]int{}}
 	ctx := newVCtx()
 	n := len(h.evs)
